@@ -46,6 +46,12 @@ if [[ -f "$base.resp" ]]; then cat "$base.resp" > "$VALIDATING_RESPONSE_PATH"; f
 if [[ -f "$base.metrics" ]]; then cat "$base.metrics" > "$METRICS_PATH"; fi
 if [[ -f "$base.kpatch" ]]; then cat "$base.kpatch" > "$KUBERNETES_PATCH_PATH"; fi
 if [[ -f "$base.gate" ]]; then : > "$ctl/sync/$uid.wrote"; wait_for "$ctl/sync/$uid.go"; fi
+# what it says on stdout / stderr before it ends
+if [[ -f "$base.noise" ]]; then
+  n="$(cat "$base.noise")"
+  [[ "$n" == *o* ]] && echo "c14 hook $me: a line on stdout"
+  [[ "$n" == *e* ]] && echo "c14 hook $me: a line on stderr" >&2
+fi
 # how the process ends: "<n>" = exit n; "k<n>" = a signal terminates it (it kills itself; the files above are written)
 e="$(cat "$base.exit" 2>/dev/null || echo 3)"
 if [[ "$e" == k* ]]; then
@@ -83,6 +89,7 @@ type c14Binding struct {
 // what the hook does for one binding name
 type c14Outcome struct {
 	Exit    int
+	Noise   string // what the process prints before it ends: "" nothing, "o" a line on stdout, "e" a line on stderr, "oe" both
 	Sig     int    // != 0: the hook process does not exit: after writing its files it is terminated by this signal (Exit is not used)
 	Kind    string // e g t y b z s o n u a d
 	Msg     string
@@ -119,6 +126,9 @@ func (o c14Outcome) writeCtl(base string, gate bool) {
 	if o.Kind != "e" {
 		_ = os.WriteFile(base+".resp", []byte(o.Content), 0o644)
 	}
+	if o.Noise != "" {
+		_ = os.WriteFile(base+".noise", []byte(o.Noise), 0o644)
+	}
 	m, k := o.sideFiles()
 	if m != "" {
 		_ = os.WriteFile(base+".metrics", []byte(m), 0o644)
@@ -137,6 +147,14 @@ func (o c14Outcome) ending() string {
 		return "k" + strconv.Itoa(o.Sig)
 	}
 	return strconv.Itoa(o.Exit)
+}
+
+// endingToken: the ending in the protocol line, with what the process printed before (`!o`, `!e`, `!oe`)
+func (o c14Outcome) endingToken() string {
+	if o.Noise != "" {
+		return o.ending() + "!" + o.Noise
+	}
+	return o.ending()
 }
 
 // the statuses a hook process exits with besides 0 (shell conventions: 126 not executable, 127 not found,
@@ -174,9 +192,9 @@ func (o c14Outcome) token() string {
 		file = strings.Join(parts, ";")
 	}
 	if o.Side != "" {
-		return fmt.Sprintf("%s+%s:%s", o.ending(), o.Side, file)
+		return fmt.Sprintf("%s+%s:%s", o.endingToken(), o.Side, file)
 	}
-	return fmt.Sprintf("%s:%s", o.ending(), file)
+	return fmt.Sprintf("%s:%s", o.endingToken(), file)
 }
 
 func (o c14Outcome) allowed() bool { return o.Kind == "a" || o.Kind == "u" }
@@ -200,6 +218,9 @@ func c14GenOutcome(rng *Rng, tag string) c14Outcome {
 		} else {
 			o.Sig = PickOne(rng, c14Signals)
 		}
+	}
+	if rng.Chance(30) {
+		o.Noise = PickOne(rng, []string{"o", "e", "e", "oe"})
 	}
 	k := rng.Intn(100)
 	switch {
@@ -898,7 +919,7 @@ func c14Variant(rng *Rng, p string) string {
 }
 
 func runC14(r *Run) {
-	r.Rule = "1-3 hooks with 1-3 validating/mutating bindings each (fully qualified names for validating; arbitrary names for mutating: upper case, blanks, slashes, empty path segments, non-ASCII; names whose SafeURL forms collide within and across hooks), a scripted outcome per (hook, binding) or per request: how the hook process ends (exit 0; an exit status 1-255 incl. 126, 127, 128+n, 255; a signal — KILL, TERM, SEGV, ABRT, USR1, ALRM — that terminates it after it wrote its files) x response file (empty, not JSON, truncated, wrong types, bad base64, JSON followed by garbage, two documents, {}, null, unknown fields, allowed/denied with message/warnings/base64 JSONPatch); 3-6 requests per case: registered paths and variants (trailing/double slashes, upper case, other configuration id, prefix/suffix changes, unknown, /, /hooks), bodies valid / garbage / without request. A run may also leave metric / object patch operation files behind (a valid metric operation; a metrics file that is not JSON; a metric operation that does not validate; an unknown object patch operation; an unparsable object patch file) — all but the first make the hook task fail after a clean exit. Overlap cases: 2-4 requests in flight at the same time (mostly to the same hook and binding, also to other bindings of the same hook and to other hooks, each with its own uid and its own scripted outcome), the order of \"handed over by the hook manager (task and binding context built, hook run not begun) / run prepared (Hook.Run wrote the binding context file and the other files, process not started) / hook process started / hook writes its files / hook exits\" over all of them chosen at random and forced with a yield point in the event closure (verifsched admission.taskBuilt), a gate at the very start of the hook process (before it reads its binding context) and marker files; every hook process is checked against the request it was started for (which request uid, which hook and binding it found in its binding context), every answer against its own request. Everything runs through the real chain: chi router of the admission WebhookHandler (httptest) -> the event closure of initValidatingWebhookManager -> HookManager routing -> taskHandler -> Hook.Run -> bash -> response file -> AdmissionReview. Plus differential lines for SafeURLString and detectConfigurationAndWebhook on random strings. A case is non-trivial when a hook process ran; distinct = distinct op-line sequences."
+	r.Rule = "1-3 hooks with 1-3 validating/mutating bindings each (fully qualified names for validating; arbitrary names for mutating: upper case, blanks, slashes, empty path segments, non-ASCII; names whose SafeURL forms collide within and across hooks), a scripted outcome per (hook, binding) or per request: how the hook process ends (exit 0; an exit status 1-255 incl. 126, 127, 128+n, 255; a signal — KILL, TERM, SEGV, ABRT, USR1, ALRM — that terminates it after it wrote its files; before it ends it may print a line on stdout and / or stderr) x response file (empty, not JSON, truncated, wrong types, bad base64, JSON followed by garbage, two documents, {}, null, unknown fields, allowed/denied with message/warnings/base64 JSONPatch); 3-6 requests per case: registered paths and variants (trailing/double slashes, upper case, other configuration id, prefix/suffix changes, unknown, /, /hooks), bodies valid / garbage / without request. A run may also leave metric / object patch operation files behind (a valid metric operation; a metrics file that is not JSON; a metric operation that does not validate; an unknown object patch operation; an unparsable object patch file) — all but the first make the hook task fail after a clean exit. Overlap cases: 2-4 requests in flight at the same time (mostly to the same hook and binding, also to other bindings of the same hook and to other hooks, each with its own uid and its own scripted outcome), the order of \"handed over by the hook manager (task and binding context built, hook run not begun) / run prepared (Hook.Run wrote the binding context file and the other files, process not started) / hook process started / hook writes its files / hook exits\" over all of them chosen at random and forced with a yield point in the event closure (verifsched admission.taskBuilt), a gate at the very start of the hook process (before it reads its binding context) and marker files; every hook process is checked against the request it was started for (which request uid, which hook and binding it found in its binding context), every answer against its own request. Everything runs through the real chain: chi router of the admission WebhookHandler (httptest) -> the event closure of initValidatingWebhookManager -> HookManager routing -> taskHandler -> Hook.Run -> bash -> response file -> AdmissionReview. Plus differential lines for SafeURLString and detectConfigurationAndWebhook on random strings. A case is non-trivial when a hook process ran; distinct = distinct op-line sequences."
 	c14SharedHook(r)
 
 	// ---- corpus
@@ -1016,9 +1037,11 @@ func runC14(r *Run) {
 		ok := c14Outcome{Kind: "a", Content: `{"allowed":true}`}
 		h := c14Hook{ID: 1, Bindings: []c14Binding{{"v", "gate.example.com"}, {"m", "mutGate"}}, Out: map[string]c14Outcome{"gate.example.com": ok, "mutGate": ok}}
 		g, m := "/hooks/gate-example-com", "/hooks/mut-gate"
+		noisy := func(o *c14Outcome, n string) *c14Outcome { o.Noise = n; return o }
 		c14RunCase(r, c, []c14Hook{h}, []c14Req{
 			{g, "ok", "end-0", allowEnd(0, 0)}, {g, "ok", "end-kill", allowEnd(0, 9)}, {g, "ok", "end-term", allowEnd(0, 15)}, {m, "ok", "end-segv", allowEnd(0, 11)},
 			{g, "ok", "end-137", allowEnd(137, 0)}, {m, "ok", "end-255", allowEnd(255, 0)}, {g, "ok", "end-126", allowEnd(126, 0)},
+			{g, "ok", "end-0-stderr", noisy(allowEnd(0, 0), "e")}, {g, "ok", "end-kill-stderr", noisy(allowEnd(0, 9), "oe")}, {m, "ok", "end-1-stderr", noisy(allowEnd(1, 0), "e")},
 			{g, "ok", "end-kill-empty", &c14Outcome{Sig: 9, Kind: "e"}}, {g, "ok", "end-plain", nil}})
 	})
 
@@ -1050,6 +1073,7 @@ func runC14(r *Run) {
 		for i, f := range endFiles {
 			o := f
 			o.Exit, o.Sig = e.exit, e.sig
+			o.Noise = []string{"", "e", "oe"}[i%3] // the executor words the error of a failed run after what is on stderr
 			reqs = append(reqs, c14Req{"/hooks/table-example-com", "ok", fmt.Sprintf("e-%d-%d", c.Idx, i), &o})
 		}
 		// afterwards the same hook exits zero with the same verdict: allowed
